@@ -237,6 +237,29 @@ pub fn c03(tier: Tier) -> i32 {
     run.finish_batch(&confirm_nat_batch)
 }
 
+pub fn c04(tier: Tier) -> i32 {
+    let mut run = Run::new("C04", tier.clone());
+    let census = run_census();
+    census_guard(&mut run, &census);
+    let canon = canonical_templates(&census);
+    let plan = Plan {
+        census: &census,
+        canon: &canon,
+        tier: tier.clone(),
+    };
+    let maxlen = if tier.is_thorough() { 4 } else { 3 };
+    let out = run_nat(f_c04, cap(&tier), &|sink| {
+        s8_stack_single(&plan, sink);
+        s8b_programs(&plan, maxlen, sink);
+    });
+    run.findings.merge(out.findings.clone());
+    nat_evidence(&mut run, &census, &out, &["S0", "S8a", "S8b"]);
+    run.cov("program_max_length", json!(maxlen));
+    generic_guards(&mut run, &out, 10_000);
+    run.assume("programs: the native CPU generates the reachable states; each next transition is compared from the native state, so exploration continues past a divergence");
+    run.finish_batch(&confirm_nat_batch)
+}
+
 pub fn c05(tier: Tier) -> i32 {
     let mut run = Run::new("C05", tier.clone());
     let census = run_census();
